@@ -12,7 +12,8 @@ META = {
     "and written whole through the single-request path and through the multi path (paired with a small request, both orders), on v20 "
     "(symbolic paths) and v32 (symbol-instance paths), with the large Forward Open accepted and refused; the controller's fragment "
     "lengths are explored with deviation bound 2 (quick 1); mixed lists of medium tags whose reply sizes sum to every value in "
-    "[S-48, S+8]. Monitors inside the target: every connected data item <= granted size; every solicited reply <= granted size; "
+    "[S-48, S+8]; structures whose single element is around or above one fragment (S-28 .. 2S+200 bytes) as 1, 2 and 3 elements; "
+    "write lists that overflow into further multi-service packets at every boundary. Monitors inside the target: every connected data item <= granted size; every solicited reply <= granted size; "
     "per transfer the (offset,length) pairs start at 0, are contiguous and cover the value exactly; each follow-up read asks for "
     "the bytes delivered so far; and the transfer's result is correct. distinct = distinct (world, tag, operation, path, choices).",
     "explanation": "exhaustive size-window sweep with size/tiling monitors; deviation-bounded fragment lengths",
